@@ -201,6 +201,12 @@ def metadata_cases(backend: str, s) -> List[Tuple[str, str]]:
                           ("md_job_script_duplicate_cycle", js(["line_a"], []), js(["line_a"], ["blk"]))):
             out.append((nm, f"Select(MetaData(MetaData(ds, {a!r}), {b2!r}), lambda e: e.{c}('A').Count())"))
             out.append((nm + "_far_apart", f"Select(MetaData(Where(MetaData(ds, {a!r}), lambda e: e.{c}('A').Count() > 0), {b2!r}), lambda e: e.{c}('A').Count())"))
+    # an injected function whose specification cannot bind a receiver, invoked like a method: the receiver would be dropped
+    io = {"metadata_type": "add_cpp_function", "name": "IOnly", "include_files": [], "arguments": ["f"], "code": ["auto result = f * 1000.0;"], "return_type": "double", "instance_object": "X"}
+    out.append(("function_without_method_object_called_as_method", f"Select(SelectMany(MetaData(ds, {io!r}), lambda e: e.{c}('A')), lambda j: j.IOnly(2.0))"))
+    fn = dict(io, name="PlainFn")
+    fn.pop("instance_object")
+    out.append(("function_called_as_method", f"Select(SelectMany(MetaData(ds, {fn!r}), lambda e: e.{c}('A')), lambda j: j.PlainFn(2.0))"))
     # metadata deep in the chain / after other valid metadata
     out.append(("md_unknown_after_valid", f"Select(MetaData(MetaData(ds, {{'metadata_type': 'inject_code', 'name': 'ok', 'body_includes': ['a.h']}}), {{'metadata_type': 'bogus'}}), lambda e: e.{c}('A').Count())"))
     out.append(("md_unknown_on_outer", f"MetaData(Select(ds, lambda e: e.{c}('A').Count()), {{'metadata_type': 'bogus'}})"))
